@@ -78,6 +78,7 @@ class RecipeRun:
         self.held = []          # slices the user built and handed to recipe calls: (label, object, fingerprint)
         self.held_info = []     # (plate name, selector) of each
         self.arg_lists = []     # lists handed to recipe calls (the recipe keeps them until bake): (label, list, copy)
+        self.renamed = set()    # declared names whose container a dilute step renames (known finding: tracking loses *them*)
         self.near_capacity_fill = False
         self.near_boundary_transfer = False
         self.min_margin_rel = F(1)
@@ -571,6 +572,9 @@ class RecipeRun:
             if kf:
                 self.excused.add(kf['id'])
                 step['known'] = kf['id']
+        if k == 'dilute' and c.get('name'):
+            self.renamed.add(c['tgt'][0])
+            self.renamed.add(c['name'])     # ... and whatever else goes by the name it takes (tracking matches by name)
         if self.eager_ok:
             try:
                 cur = {n: o for n, o in self.eager.items() if o is not None}
@@ -964,6 +968,19 @@ class RecipeRun:
                 self.V('C16', 'stage_not_registered', ('bake',), f"stage {name!r} was accepted but is not a timeframe after bake: {out[0]}: {out[1]}")
             else:
                 self.stats['probe:stage_timeframe_checked'] += 1
+
+    def scoped_excuse(self, props, names):
+        """Like first_excuse, but the renaming-dilute finding excuses only answers about the renamed container itself: what
+        the recipe says about every other object is judged."""
+        if self.known is None:
+            return None
+        for kid in sorted(self.excused):
+            f = self.known.findings.get(kid)
+            if f and (f['property'] in props or any(p in f.get('also', []) for p in props)):
+                if f.get('trigger') == 'recipe_dilute_rename' and not (set(names) & self.renamed):
+                    continue
+                return kid
+        return None
 
     def first_excuse(self, props):
         if self.known is None:
